@@ -14,10 +14,11 @@ ReadFrom with arbitrary chunking / header edits, in any order and number), every
 No exclusion on the configuration is left: since commit 954786b (`ReadFrom` commits the header before it hands
 the reader to the wrapped writer) every theorem holds for every `minimum_length`, negative ones included;
 Witness.lean keeps the old `ReadFrom` and proves that the same statements FAIL for it (`…_old_code_fails`).
-The one remaining hypothesis of the body/status clauses is `No101`: a handler that answers
-`101 Switching Protocols` hijacks the connection; the writer forwards 101 like any 1xx while net/http treats
-it as the final header and refuses a body — the model's recording writer does not drop that body, so the
-clause about bodies cannot speak about such scripts (`Witness.no101_hypothesis_is_needed`).
+No hypothesis on the script is left either: a handler that answers `101 Switching Protocols` before anything
+is committed fixes the response as 101 (the writer forwards it like any 1xx, net/http treats it as final and
+refuses a body) — the per-clause theorems say "… or the response was fixed as 101" (`Final101`),
+`transparent_total` states transparency with net/http's body rule (HEAD, 1xx/101, 204, 304) as an explicit
+outcome. (`transparent`, `transparent_bytes`, `final_shape_no101` keep the older `No101` formulation.)
 -/
 import CaddyModel.C15.Lemmas
 import CaddyModel.C15.Witness
@@ -276,6 +277,46 @@ theorem header_untouched_unless_init (cfg : Cfg α) (st : St α) (op : Op α) (k
 theorem close_untouched_unless_init (cfg : Cfg α) (st : St α) :
     (rwClose cfg st).hdr = st.hdr ∨ (st.wroteHeader = false ∧ (rwClose cfg st).log.head? = some Ev.ec) :=
   hdr_rwClose cfg st
+
+/-- **304 Not Modified carries `Vary: Accept-Encoding`** (issue 5849) although no body — hence no `init` — ever
+    comes: `WriteHeader(304)` adds it at once unless the handler listed it already; nothing else is touched. -/
+theorem vary_on_304 (st : St α) :
+    hasVary (rwWriteHeader st 304).hdr = true ∧
+      ∀ k, k ≠ kVary → hValues (rwWriteHeader st 304).hdr k = hValues st.hdr k := by
+  refine ⟨?_, fun k hk => hdr_rwWriteHeader st 304 hk⟩
+  have e : (rwWriteHeader st 304).hdr = (vary304 304 { st with statusCode := 304 }).hdr := by
+    unfold rwWriteHeader informational connectImmediate
+    split <;> split <;> simp [dsWriteHeader]
+  rw [e]
+  unfold vary304
+  by_cases hv : hasVary st.hdr = true
+  · simp [hv]
+  · simp only [hv, Bool.not_false, Bool.and_true, beq_self_eq_true, if_true]
+    unfold hasVary
+    rw [hValues_add_self, List.any_append]
+    have : varyValueHas vAE = true := by decide
+    simp [this]
+
+/-- **Flush before the header is committed is swallowed** (bug 4314: flushing would send the header before it is
+    known whether Content-Encoding must be added) — whatever status the handler has announced, 1xx included;
+    the only exception is a CONNECT request that has not announced a status. -/
+theorem flush_before_commit_is_deferred (st : St α) (hw : st.wroteHeader = false)
+    (hc : (st.isConnect && st.statusCode == 0) = false) : rwFlush st = st := by
+  have e : connectDefault st = st := by
+    unfold connectDefault
+    have : (st.isConnect && !st.wroteHeader && st.statusCode == 0) = false := by
+      cases h1 : st.isConnect <;> cases h2 : (st.statusCode == 0) <;> simp_all
+    simp [this]
+  simp [rwFlush, e, hw]
+
+/-- **Flush after the header is committed goes through**: first the encoder (if one is open), then the wrapped
+    writer — and changes nothing else. -/
+theorem flush_after_commit_goes_through (st : St α) (hw : st.wroteHeader = true) :
+    (rwFlush st).log = (if st.encOpen then [Ev.fl, Ev.ef] else [Ev.fl]) ++ st.log ∧
+      (rwFlush st).encOpen = st.encOpen ∧ (rwFlush st).hdr = st.hdr := by
+  have e : connectDefault st = st := committed_connectDefault st hw
+  simp only [rwFlush, e, hw, flushThrough]
+  cases ho : st.encOpen <;> simp [dsFlush, encFlush, implicitHeader, ho]
 
 /-- **1xx is forwarded at once**, with the header map as it is, and decides nothing. -/
 theorem informational_forwarded (st : St α) (s : Nat) (h1 : is1xx s = true) :
